@@ -32,6 +32,26 @@ func watcherGoroutineAlive() bool {
 	return strings.Contains(string(buf[:n]), "config.DetectDeviceConfigChanges.func1(")
 }
 
+// watcherResourcesLeft: the fsnotify watcher behind the goroutine is still open — its reader goroutine is alive or an
+// inotify descriptor is still held by this process ("the watcher stops")
+func watcherResourcesLeft() bool {
+	buf := make([]byte, 1<<20)
+	n := runtime.Stack(buf, true)
+	if strings.Contains(string(buf[:n]), "fsnotify.(*Watcher).readEvents") {
+		return true
+	}
+	ents, err := os.ReadDir("/proc/self/fd")
+	if err != nil {
+		return false
+	}
+	for _, e := range ents {
+		if l, err := os.Readlink("/proc/self/fd/" + e.Name()); err == nil && strings.Contains(l, "inotify") {
+			return true
+		}
+	}
+	return false
+}
+
 func (c *watchCase) line(toks []string) (string, bool) {
 	ms := func(i int) time.Duration {
 		v, _ := strconv.Atoi(toks[i])
@@ -138,12 +158,15 @@ func (c *watchCase) line(toks []string) (string, bool) {
 		// without reading from the stream: does the watcher goroutine return?
 		deadline := time.Now().Add(ms(1))
 		for time.Now().Before(deadline) {
-			if !watcherGoroutineAlive() {
+			if !watcherGoroutineAlive() && !watcherResourcesLeft() {
 				return "stopped", true
 			}
 			time.Sleep(10 * time.Millisecond)
 		}
-		return "running", true
+		if watcherGoroutineAlive() {
+			return "running", true
+		}
+		return "leaked", true // the goroutine returned but the file-system watcher was never closed
 	case "w.closed":
 		if c.closed {
 			return "closed", true
